@@ -117,6 +117,9 @@ pub struct Rec {
     pub initial: Option<Obs>,
     pub steps: u64,
     pub renders: Vec<String>,
+    /// the run executed an instruction that reads a register nobody wrote explicitly (e.g. after
+    /// jumping into the middle of an instruction): its outcome legitimately depends on constructor randomness
+    pub reads_unwritten: bool,
 }
 
 #[derive(Clone, Copy, PartialEq, Eq, Debug)]
@@ -573,7 +576,7 @@ fn post_mortem(sc: &Sc, m: &mut Machine, end: &End, ctx: &mut Ctx, oracles: bool
 }
 
 fn finish_rec(m: &Machine, end: End, errors: Vec<String>, step_digests: Vec<u64>, initial: Option<Obs>, steps: u64) -> Rec {
-    Rec { end, errors, obs: Some(observe(&m.ax)), hook_log: m.host.borrow().log.clone(), step_digests, initial, steps, renders: vec![] }
+    Rec { end, errors, obs: Some(observe(&m.ax)), hook_log: m.host.borrow().log.clone(), step_digests, initial, steps, renders: vec![], reads_unwritten: false }
 }
 
 /// Step-driven machine with (optionally) all per-step oracles.
@@ -621,7 +624,7 @@ fn drive_step(sc: &Sc, rng_seed: u64, ctx: &mut Ctx, oracles: bool, record_diges
     let mut m = match build(sc, rng_seed, true) {
         Ok(m) => m,
         Err(e) => {
-            return Rec { end: End::Construct(e), errors: vec![], obs: None, hook_log: vec![], step_digests: vec![], initial: None, steps: 0, renders: vec![] };
+            return Rec { end: End::Construct(e), errors: vec![], obs: None, hook_log: vec![], step_digests: vec![], initial: None, steps: 0, renders: vec![], reads_unwritten: false };
         }
     };
     install_dispatch(&m.host);
@@ -638,6 +641,7 @@ fn drive_step(sc: &Sc, rng_seed: u64, ctx: &mut Ctx, oracles: bool, record_diges
     let mut errs_left = sc.err_budget;
     let mut steps = 0u64;
     let mut step_digests: Vec<u64> = Vec::new();
+    let mut reads_unwritten = false;
     let end;
     loop {
         apply_actions(sc, &mut m, &mut done, ctx, oracles);
@@ -658,6 +662,31 @@ fn drive_step(sc: &Sc, rng_seed: u64, ctx: &mut Ctx, oracles: bool, record_diges
         let mn_name = ins.map(|i| format!("{:?}", i.mnemonic())).unwrap_or_else(|| "nofetch".into());
         let hooked = ins.map(|_| m.reg.before.contains_key(&mn_name) || m.reg.after.contains_key(&mn_name)).unwrap_or(false);
         let d_pre = if oracles && hooked { digest_ex(&m.ax, &mask, sc.scratch, if sc.patch_slots.is_empty() { 0 } else { sc.code_start }) } else { 0 };
+        if record_digests && !reads_unwritten {
+            if let Some(i) = ins {
+                let mut fac = iced_x86::InstructionInfoFactory::new();
+                let info = fac.info(&i);
+                let mut regs: Vec<iced_x86::Register> = info.used_registers().iter().map(|u| u.register()).collect();
+                for um in info.used_memory() {
+                    regs.push(um.base());
+                    regs.push(um.index());
+                }
+                for r in regs {
+                    if r == iced_x86::Register::None {
+                        continue;
+                    }
+                    if r.is_xmm() {
+                        if !mask.xmm[r.number() % 16] {
+                            reads_unwritten = true;
+                        }
+                    } else if let Some(gi) = gpr_index(&format!("{:?}", r.full_register())) {
+                        if !mask.gpr[gi] && gi != 15 {
+                            reads_unwritten = true;
+                        }
+                    }
+                }
+            }
+        }
         let must_fail = pre_fin || limit_reached;
         let obs_before_fail = if must_fail && oracles { Some(observe(&m.ax)) } else { None };
         let log_start = m.host.borrow().log.len();
@@ -936,6 +965,7 @@ fn drive_step(sc: &Sc, rng_seed: u64, ctx: &mut Ctx, oracles: bool, record_diges
     let mut rec = finish_rec(&m, end, errors, step_digests, Some(initial), steps);
     rec.obs = Some(final_obs_before_pm);
     rec.renders = renders;
+    rec.reads_unwritten = reads_unwritten;
     set_dispatch(None);
     rec
 }
@@ -1321,7 +1351,7 @@ fn drive_exec(sc: &Sc, rng_seed: u64, ctx: &mut Ctx, cuts: &[u64]) -> Rec {
     let mut m = match build(sc, rng_seed, false) {
         Ok(m) => m,
         Err(e) => {
-            return Rec { end: End::Construct(e), errors: vec![], obs: None, hook_log: vec![], step_digests: vec![], initial: None, steps: 0, renders: vec![] };
+            return Rec { end: End::Construct(e), errors: vec![], obs: None, hook_log: vec![], step_digests: vec![], initial: None, steps: 0, renders: vec![], reads_unwritten: false };
         }
     };
     install_dispatch(&m.host);
@@ -1537,7 +1567,7 @@ fn compare(ctx: &mut Ctx, prop: &str, what: &str, a: &Rec, b: &Rec, mask: Option
 pub fn run(prop: &str, sc: &Sc, ctx: &mut Ctx) {
     for p in [
         "step_cap_hit", "finish_code_end", "finish_top_level_ret", "finish_hook_stop", "after_hooks_on_finishing_instruction",
-        "negative_trace_level", "trace_count_collapsed", "return_with_empty_call_stack", "register_after_hook_error", "return_traced", "failed_control_transfer", "symbols_from_image",
+        "negative_trace_level", "trace_count_collapsed", "return_with_empty_call_stack", "register_after_hook_error", "return_traced", "failed_control_transfer", "symbols_from_image", "c20_skipped_reads_unwritten_register",
     ] {
         ctx.probes.entry(p.to_string()).or_insert(0);
     }
@@ -1567,6 +1597,12 @@ pub fn run(prop: &str, sc: &Sc, ctx: &mut Ctx) {
             }
             let b2 = drive_step(sc, sc.rng_b, ctx, false, true);
             DECOY.with(|x| *x.borrow_mut() = None);
+            if b.reads_unwritten || b2.reads_unwritten {
+                // control flow left the program as assembled (e.g. a return into the middle of an instruction)
+                // and executed bytes that read a register nobody wrote: no verdict for this run
+                ctx.probe("c20_skipped_reads_unwritten_register");
+                return;
+            }
             // per-step comparison first: it localises the divergence
             let n = b.step_digests.len().min(b2.step_digests.len());
             let mut diverged = false;
